@@ -234,6 +234,13 @@ class CStr(Sym):
         n = len(CStr.of(sep).c)
         return (s._mk(s.c[:i]), s._mk(s.c[i:i + n]), s._mk(s.c[i + n:]))
 
+    def rpartition(s, sep):
+        i = s.rfind(sep)
+        if i < 0:
+            return (s._mk([]), s._mk([]), s)
+        n = len(CStr.of(sep).c)
+        return (s._mk(s.c[:i]), s._mk(s.c[i:i + n]), s._mk(s.c[i + n:]))
+
     def _ascii_guard(s, ch):
         if _is_sym(ch):
             if not E.branch(_cz(ch) < 128):
